@@ -204,7 +204,9 @@ def r3_fresh_and_units(c, facts):
     R = c.rule('C17.R3', 'FRESH-TEXT: handlers answer from trees of the current texts: every notification marks the workspace stale, requests refresh first, a change batch is applied in order (shared with C15.R1/R2/R4)')
     c.shared(R, c15.r1_set_stale, 'C15.R1', facts)
     c.shared(R, c15.r2_refresh_first, 'C15.R2', facts)
-    c.run(lambda c: c15.changes_in_order(c, facts, R))
+    c.shared(R, c15.r3_reset_all, 'C15.R3', facts)
+    c.shared(R, c15.r6_doc_sync, 'C15.R6', facts)
+    c.shared(R, c15.r4_change, 'C15.R4', facts)
     sc = ['oal_client::lsp::unicode::position_to_utf8', 'oal_client::lsp::unicode::utf8_to_position', 'oal_client::lsp::unicode::utf8_range_to_position',
           'oal_client::lsp::handlers::syntax_at', 'oal_client::lsp::handlers::node_location', 'oal_client::lsp::handlers::go_to_definition', 'oal_client::lsp::handlers::references']
     c16.run_units(c, facts, rule_prefix='C17.U', scope=sc, must=sc[:3], floors=False)
